@@ -32,6 +32,9 @@ func checkC18(c *Ctx) {
 	c.lenReject(p, "C18.finalize", pfin, "data", false)
 	c.guard(p, "C18.finalize", "VerifyBlindSignature accepts only on equality with the encoded message", p.Func(cm, "", "VerifyBlindSignature"),
 		GuardSpec{Assumes: []Assume{calleeAssume(latInt(0), -1, "crypto/subtle.ConstantTimeCompare")}})
+	// ... the whole of it: a comparison with a tail of the encoded message ignores its leading octets
+	c.callArgRule(p, "C18.finalize", "the comparison covers the whole encoded message (as an integer, or the full byte string)", p.Func(cm, "", "VerifyBlindSignature"), "crypto/subtle.ConstantTimeCompare", "",
+		map[int]string{0: `call:\(\*math/big\.Int\)\.(Bytes|FillBytes)[^\[]*|param#1`})
 	c.depRule(p, "C18.finalize", "comparison covers the encoded message and the signature raised to e", p.Func(cm, "", "VerifyBlindSignature"), sinkCallArg(0, "crypto/subtle.ConstantTimeCompare"), "param:hashed")
 	c.depRule(p, "C18.finalize", "comparison covers the encoded message and the signature raised to e", p.Func(cm, "", "VerifyBlindSignature"), sinkCallArg(1, "crypto/subtle.ConstantTimeCompare"), "param:sig", "param:pub")
 
